@@ -825,6 +825,21 @@ fn parse_export_ext<'a>(input: &'a [u8], cache: &AtomCache) -> NomResult<'a, Own
     ))
 }
 
+/// OldIndex and OldUniq of NEW_FUN_EXT are nested integer terms: values of 2^31
+/// and above are written as SMALL_BIG_EXT and arrive here as a `BigInt`.
+fn u32_from_bigint(big: &BigInt) -> Option<u32> {
+    if big.sign.is_negative() || big.digits.iter().skip(4).any(|&d| d != 0) {
+        return None;
+    }
+    Some(
+        big.digits
+            .iter()
+            .take(4)
+            .rev()
+            .fold(0u32, |acc, &d| (acc << 8) | u32::from(d)),
+    )
+}
+
 fn parse_new_fun_ext<'a>(input: &'a [u8], cache: &AtomCache) -> NomResult<'a, OwnedTerm> {
     let (input, _size) = be_u32(input)?;
     let (input, arity) = be_u8(input)?;
@@ -840,15 +855,19 @@ fn parse_new_fun_ext<'a>(input: &'a [u8], cache: &AtomCache) -> NomResult<'a, Ow
 
     let (input, old_index_term) = parse_term(input, cache)?;
     let old_index = match old_index_term {
-        OwnedTerm::Integer(i) if i >= 0 => i as u32,
-        _ => return Err(nom::Err::Failure(NomError::new(input, ErrorKind::Tag))),
-    };
+        OwnedTerm::Integer(i) => u32::try_from(i).ok(),
+        OwnedTerm::BigInt(ref big) => u32_from_bigint(big),
+        _ => None,
+    }
+    .ok_or_else(|| nom::Err::Failure(NomError::new(input, ErrorKind::Tag)))?;
 
     let (input, old_uniq_term) = parse_term(input, cache)?;
     let old_uniq = match old_uniq_term {
-        OwnedTerm::Integer(i) if i >= 0 => i as u32,
-        _ => return Err(nom::Err::Failure(NomError::new(input, ErrorKind::Tag))),
-    };
+        OwnedTerm::Integer(i) => u32::try_from(i).ok(),
+        OwnedTerm::BigInt(ref big) => u32_from_bigint(big),
+        _ => None,
+    }
+    .ok_or_else(|| nom::Err::Failure(NomError::new(input, ErrorKind::Tag)))?;
 
     let (input, pid_term) = parse_term(input, cache)?;
     let pid = match pid_term {
@@ -1322,15 +1341,19 @@ fn parse_new_fun_ext_borrowed<'a>(
 
     let (input, old_index_term) = parse_term_borrowed(input, original_len, ctx)?;
     let old_index = match old_index_term {
-        BorrowedTerm::Integer(i) if i >= 0 => i as u32,
-        _ => return Err(nom::Err::Failure(NomError::new(input, ErrorKind::Tag))),
-    };
+        BorrowedTerm::Integer(i) => u32::try_from(i).ok(),
+        BorrowedTerm::BigInt(ref big) => u32_from_bigint(big),
+        _ => None,
+    }
+    .ok_or_else(|| nom::Err::Failure(NomError::new(input, ErrorKind::Tag)))?;
 
     let (input, old_uniq_term) = parse_term_borrowed(input, original_len, ctx)?;
     let old_uniq = match old_uniq_term {
-        BorrowedTerm::Integer(i) if i >= 0 => i as u32,
-        _ => return Err(nom::Err::Failure(NomError::new(input, ErrorKind::Tag))),
-    };
+        BorrowedTerm::Integer(i) => u32::try_from(i).ok(),
+        BorrowedTerm::BigInt(ref big) => u32_from_bigint(big),
+        _ => None,
+    }
+    .ok_or_else(|| nom::Err::Failure(NomError::new(input, ErrorKind::Tag)))?;
 
     let (input, pid_term) = parse_term_borrowed(input, original_len, ctx)?;
     let pid = match pid_term {
